@@ -176,3 +176,11 @@ Theorem demote_block_loses_no_block : forall ns g g', demote_block g ns = Ok g' 
   Permutation (blist g) (blist g') /\ bdict g' = bdict g /\ bn g' = bn g.
 Proof. exact demote_block_keeps_blocks. Qed.
 Print Assumptions demote_block_loses_no_block.
+Theorem rename_blocks_fix_refused_exactly_when : forall g m e, Inv g ->
+  (rename_blocks_fix g m = Raise e <-> fix_block_mapping m = Raise e).
+Proof. exact rename_blocks_fix_raises_iff. Qed.
+Print Assumptions rename_blocks_fix_refused_exactly_when.
+Theorem deleting_an_absent_name_changes_nothing : forall g, (forall n, rget g n = None -> delete_rocktype g n = Ok g) /\
+  (forall n, bget g n = None -> delete_block g n = Ok g) /\ (forall k, cget g k = None -> delete_connection g k = Ok g).
+Proof. exact delete_absent_noop. Qed.
+Print Assumptions deleting_an_absent_name_changes_nothing.
